@@ -13,7 +13,7 @@ SRC_DEPS = {"Overlaps": ["Overlaps"], "Intersection": ["Intersection"], "Extend"
 SRC_MODULES = [T + "Src." + n for n in SRC_DEPS]
 CFG = {
     "id": "C04",
-    "lean_modules": ["GeomV.C04.Proofs", "GeomV.C04.ProofsNaN", "GeomV.C04.ProofsMore", "GeomV.C04.ProofsNil", "GeomV.C04.ProofsNaNBox"] + TIE_MODULES + SRC_MODULES,
+    "lean_modules": ["GeomV.C04.Proofs", "GeomV.C04.ProofsNaN", "GeomV.C04.ProofsMore", "GeomV.C04.ProofsNil", "GeomV.C04.ProofsNaNBox", "GeomV.C04.ProofsAfter"] + TIE_MODULES + SRC_MODULES,
     "exe": "geomv_c04",
     "go_cmd": "c04",
     "stages": ["go:gen", "go:impl", "lean:judge"],
@@ -46,6 +46,10 @@ CFG = {
         # Points() of a collection pre ++ m :: post with pre nil-free and m (containing) a nil: the first |vertices of pre| calls
         # return those vertices in order; construction + one call more panics with a nil dereference
         "C04_nil_points_prefix", "C04_nil_points_fault",
+        # phase 4 — an iterator after its first panic: the machine that keeps the captured variables after a faulting call
+        # (nextS, After.lean) agrees with next; after Len() calls EVERY further call panics (except Point / a *Bounds without
+        # points used directly: four stored corners, then panics for ever)
+        "C04_nextS_next", "C04_points_after_fault", "C04_bounds_after_fault",
         # the executed coordinate type is an instance of the theorems
         "C04_exec", "FKey.instances_agree",
         # T1: definitions regenerated from bounds.go / point.go of the tree under test = the model's (rfl)
@@ -106,7 +110,9 @@ CFG = {
         "(has a point, or is NewBounds()); for a hand-written inverted box the box itself comes back and the clause is judged on point sets (C04_bounds_sets, "
         "no hypothesis; witness that the literal reading fails there: C04_bounds_noncanon_counterexample). Members of collections are unrestricted",
         "behaviour of an iterator after more than Len() calls is unspecified by the property: the first call beyond Len() is proved for the model "
-        "(C04_points_exhausted) and compared with the code (DIFF only); calls after the first panic are not modelled",
+        "(C04_points_exhausted) and compared with the code (DIFF only); calls after the first panic: modelled with the captured variables where the panic "
+        "left them (After.lean nextS, hand-written; C04_nextS_next, C04_points_after_fault) and compared with the code by the 'after' probe (five calls after "
+        "Len() calls, resp. after the first panic of a geometry with a nil member; DIFF only)",
     ],
     "rule": "grammar-generated geometries of all eight types with an explicit empty-member production at every level (runs of 1-4 "
             "empty rings / line strings / polygons / collections at the start, middle and end; collections nested to depth 4); "
